@@ -317,4 +317,70 @@ Proof.
   intros H. unfold r_init in *. apply Rel_init_fold; [|exact H].
   constructor; cbn [r_stat r_ord r_ag r_log r_ok]; try reflexivity. unfold logs0, rl. cbn [l_rows l_elog l_tlog map]. rewrite order_iso. reflexivity.
 Qed.
+
+(* ---------- outputs ---------- *)
+Definition rt (e : Q * option node * node) : Q * option node * node := (fst (fst e), option_map phi (snd (fst e)), phi (snd e)).
+Definition relabel_hist (h : list (node * history)) : list (node * history) := map (fun uh => (phi (fst uh), snd uh)) h.
+Definition out_rel (o o' : simout) : Prop :=
+  so_rows o' = so_rows o /\
+  match so_full o, so_full o' with
+  | Some fd, Some fd' => fd_trans fd' = map rt (fd_trans fd) /\ Permutation (fd_hist fd') (relabel_hist (fd_hist fd))
+  | None, None => True
+  | _, _ => False
+  end.
+
+Lemma filter_map_comm {A B} (f : A -> B) (p : B -> bool) l : filter p (map f l) = map f (filter (fun x => p (f x)) l).
+Proof. induction l as [|x l IH]; [reflexivity|]. cbn [map filter]. destruct (p (f x)); cbn [map]; rewrite IH; reflexivity. Qed.
+Lemma eqb_phi x u : N.eqb (phi x) (phi u) = N.eqb x u.
+Proof.
+  destruct (N.eqb_spec x u) as [E|E]; [rewrite E; apply N.eqb_refl|]. apply N.eqb_neq. intro C. apply E, Hinj, C.
+Qed.
+Lemma times_of_phi u st lg :
+  times_of (phi u) st (map (fun e : Q * node * N => (fst (fst e), phi (snd (fst e)), snd e)) lg) = times_of u st lg.
+Proof.
+  unfold times_of. rewrite filter_map_comm, map_map. cbn [fst snd].
+  rewrite (filter_ext _ (fun e : Q * node * N => N.eqb (snd (fst e)) u && N.eqb (snd e) st)) by (intros e; rewrite eqb_phi; reflexivity).
+  reflexivity.
+Qed.
+Lemma finish_rel tmin full n0 l : out_rel (finish g tmin full n0 l) (finish g' tmin full n0 (rl l)).
+Proof.
+  unfold out_rel, finish. cbn [so_rows so_full]. split; [reflexivity|]. destruct full; [|exact I].
+  unfold build_full. cbn [fd_trans fd_hist rl l_elog l_tlog]. split.
+  - rewrite <- map_rev. reflexivity.
+  - unfold relabel_hist. rewrite map_map. cbn [fst snd]. rewrite <- map_rev.
+    set (H' := fun u' : node => (u', hist_sis tmin (interleave
+                 (times_of u' stI (map (fun e : Q * node * N => (fst (fst e), phi (snd (fst e)), snd e)) (rev (l_elog l))))
+                 (times_of u' stS (map (fun e : Q * node * N => (fst (fst e), phi (snd (fst e)), snd e)) (rev (l_elog l))))))).
+    etransitivity; [apply (Permutation_map H' Hnodes)|]. rewrite map_map.
+    rewrite (map_ext (fun x => H' (phi x)) (fun x => (phi x, hist_sis tmin (interleave (times_of x stI (rev (l_elog l))) (times_of x stS (rev (l_elog l)))))));
+      [apply Permutation_refl|].
+    intros u. unfold H'. rewrite !times_of_phi. reflexivity.
+Qed.
+
+(* the reference semantics on the renamed input, adjacency lists in any order: the renamed output *)
+Theorem ref_sis_equivariant tmin full fuel i0 out :
+  ref_sis g dur delays tmax tmin full fuel i0 = Ok (out, true) ->
+  exists out', ref_sis g' dur' delays' tmax tmin full fuel (map phi i0) = Ok (out', true) /\ out_rel out out'.
+Proof.
+  unfold ref_sis. intros H.
+  destruct (r_loop g dur delays tmax fuel (r_init g dur delays tmax tmin i0)) as [sF|e] eqn:EL; [|discriminate H].
+  cbn [rbind] in H. injection H as Ho Hok.
+  pose proof (r_loop_ok_mono g dur delays tmax fuel _ _ EL Hok) as Hok0.
+  destruct (Rel_loop fuel _ _ sF (Rel_init tmin i0 Hok0) EL Hok) as [sF' [EL' RF]].
+  rewrite EL'. cbn [rbind]. rewrite (rel_ok _ _ RF), Hok, (rel_log _ _ RF), map_length.
+  eexists. split; [reflexivity|]. rewrite <- Ho. apply finish_rel.
+Qed.
+
+(* fast_nonMarkov_SIS (its model nm_run) through C13 *)
+Theorem nmsis_relabel_invariant tmin full fuel i0 out :
+  xlt tmin tmax = true -> ref_sis g dur delays tmax tmin full fuel i0 = Ok (out, true) ->
+  exists out',
+    nm_run g dur delays tmax tmin full (length i0 + fuel) i0 = Ok out /\
+    nm_run g' dur' delays' tmax tmin full (length i0 + fuel) (map phi i0) = Ok out' /\
+    out_rel out out'.
+Proof.
+  intros Ht H. destruct (ref_sis_equivariant tmin full fuel i0 out H) as [out' [H' Ro]].
+  exists out'. split; [apply (nmsis_refines _ _ _ _ _ _ _ _ _ Ht H)|]. split; [|exact Ro].
+  rewrite <- (map_length phi i0). apply (nmsis_refines _ _ _ _ _ _ _ _ _ Ht H').
+Qed.
 End Equivariance.
